@@ -41,3 +41,41 @@ Lemma fresh_start_count_refuted :
   In 3 (ref_labels_of a) /\
   new_label (full_map M (pred_labels_of a) (maxZ (ref_labels_of a))) 9 = 4.
 Proof. vm_compute. repeat split; auto. Qed.
+
+(* ---- how wide the relabelled prediction is: every new label is at most  max(reference labels) + number of prediction labels,
+   and an unmatched prediction really exceeds max(reference labels): an array type that holds the reference labels need not
+   hold the relabelled prediction (the code widens; casting back to the reference's type is refuted below) *)
+Lemma new_label_bound M a v : wf_matching M a -> nonneg_arr a -> In v a ->
+  0 <= new_label (full_map M (pred_labels_of a) (maxZ (ref_labels_of a))) (snd v)
+    <= maxZ (ref_labels_of a) + Z.of_nat (length (pred_labels_of a)).
+Proof.
+  intros HM Hn Hv. pose proof (maxZ_nonneg (ref_labels_of a)) as Hm.
+  destruct (Z.eq_dec (snd v) 0) as [E0|N0].
+  - assert (H0 : new_label (full_map M (pred_labels_of a) (maxZ (ref_labels_of a))) (snd v) = 0).
+    { apply (relabel_foreground M a Hn HM v Hv). exact E0. }
+    rewrite H0. lia.
+  - assert (Hp : In (snd v) (pred_labels_of a)) by (apply pred_labels_spec; split; eauto).
+    destruct (has_key (snd v) M) eqn:Hk.
+    + unfold has_key in Hk. destruct (lookupZ (snd v) M) as [r|] eqn:E; [|discriminate].
+      pose proof (lookupZ_In _ _ _ E) as Hin.
+      rewrite (relabel_matched M a HM _ _ Hin).
+      destruct HM as [_ HM]. destruct (HM _ _ Hin) as [_ Hr].
+      pose proof (maxZ_ge r _ Hr). apply ref_labels_spec in Hr. destruct Hr as [Hr0 (w & Hw & Ew)].
+      assert (0 <= r) by (subst r; destruct (Hn w Hw); assumption). lia.
+    + pose proof (fresh_from_any_start M _ (maxZ (ref_labels_of a)) _ Hp Hk) as Hlo.
+      unfold new_label, full_map in *. rewrite lookupZ_app in *.
+      unfold has_key in Hk. destruct (lookupZ (snd v) M) eqn:E; [discriminate|].
+      destruct (lookupZ (snd v) (assign_fresh (maxZ (ref_labels_of a) + 1) (pred_labels_of a) M)) as [y|] eqn:E2.
+      * apply lookupZ_In in E2. apply assign_fresh_lt in E2. lia.
+      * exfalso. destruct (assign_fresh_complete (maxZ (ref_labels_of a) + 1) (pred_labels_of a) M (snd v) Hp) as [y Hy].
+        { unfold has_key. now rewrite E. }
+        apply lookupZ_None in E2. apply E2. apply in_map_iff. exists (snd v, y). split; [reflexivity|exact Hy].
+Qed.
+
+(* casting the relabelled prediction back to the reference's 8-bit type: reference label 255, one unmatched prediction;
+   its fresh label 256 becomes 0 -- a foreground voxel turns into background, an instance disappears *)
+Lemma narrowing_cast_refuted :
+  let a : arr2 := [(255, 7); (0, 9)] in let M : lmap := [(7, 255)] in
+  map snd (map_instance_labels M a) = [255; 256] /\
+  map (fun x => x mod 2 ^ 8) (map snd (map_instance_labels M a)) = [255; 0].
+Proof. vm_compute. split; reflexivity. Qed.
